@@ -3,3 +3,4 @@
 -/
 import SymmModel.Props.C16
 import SymmModel.Props.C16b
+import SymmModel.Props.C16c
